@@ -12,7 +12,9 @@ Decided:
   C06.table   the seek point chosen is the last one with sample_offset <= target; its byte offset is added to the
               position of the first frame with overflow checking
   C06.inval   after Decoder::seek succeeds the front-end discards what it had buffered before skipping forward
-              (VecDeque::clear; the channel reader marks its frame fully consumed), and only then skips
+              (VecDeque::clear; the channel reader marks its frame fully consumed), and only then skips; no success
+              return lies between Decoder::seek and that discard (every Ok written to the return place after the
+              coarse seek is dominated by it)
   C06.start   every new_seekable takes its seek base from stream_position() right after the metadata was read
   C06.skip    the forward skip loops of the three readers take min(buffered amount, distance) in the reader's unit,
               consume exactly that (x channels for interleaved samples) and advance the position by it
@@ -408,6 +410,13 @@ def run(ctx, rep):
         good = good and fact_match(f, "call-ok", r"decode::Decoder::seek$")
         rep.check("C06.inval", "%s discards its buffered data after a successful Decoder::seek and before skipping forward" % strip_generics(path), good, loc_of(b), "",
                   "data buffered before the seek can be handed out after it (no %s between Decoder::seek and the skip loop)" % ("buf.clear()" if kind == "clear" else "consumed = pcm_frames()"))
+        # no success exit between the coarse seek and the invalidation: every Ok(..) written to the return place that
+        # follows Decoder::seek is dominated by the discard (a shortcut "landed exactly on the seek point" keeps stale data)
+        if len(inv) == 1:
+            oks = [bi for bi, s in agg_sites(b, "std::result::Result", "Ok") if s["d"]["l"] == 0 and not s["d"]["p"]]
+            early = [bi for bi in oks if b.dominates(si, bi) and not b.dominates(inv[0], bi)]
+            rep.check("C06.inval", "%s: no success return between Decoder::seek and the discard of the buffered data" % strip_generics(path), not early and len(oks) >= 1, loc_of(b), "%d Ok exits" % len(oks),
+                      "a success return after Decoder::seek bypasses the %s: samples buffered before the seek are delivered first at the new position" % ("buf.clear()" if kind == "clear" else "consumed = pcm_frames()"))
     for path in ("decode::FlacSampleReader::seek", "decode::FlacChannelReader::seek"):
         b = _get(F, rep, "C06.end", path)
         if b is not None:
